@@ -239,12 +239,13 @@ class ElementList(MutableSequence):
         :type child: :class:`Element <hl7apy.core.Element>`
         :param child: an instance of an :class:`Element <hl7apy.core.Element>` subclass
         """
+        if by_name_index == -1:
+            # the position among the children having the same name follows from the position in the list
+            position = index if index >= 0 else max(len(self.list) + index, 0)
+            by_name_index = len([c for c in self.list[:position] if c is not child and c.name == child.name])
         if self._can_add_child(child):
             try:
-                if by_name_index == -1:
-                    self.indexes[child.name].append(child)
-                else:
-                    self.indexes[child.name].insert(by_name_index, child)
+                self.indexes[child.name].insert(by_name_index, child)
             except KeyError:
                 self.indexes[child.name] = [child]
             self.list.insert(index, child)
@@ -252,9 +253,8 @@ class ElementList(MutableSequence):
             # the child has been appended while its parent was being set: move it to the requested position
             self.list.remove(child)
             self.list.insert(index, child)
-            if by_name_index != -1:
-                self.indexes[child.name].remove(child)
-                self.indexes[child.name].insert(by_name_index, child)
+            self.indexes[child.name].remove(child)
+            self.indexes[child.name].insert(by_name_index, child)
 
     def append(self, child):
         """
@@ -544,8 +544,9 @@ class ElementList(MutableSequence):
         del self.list[index]
 
     def __setitem__(self, index, value):
-        child_name = self.list[index].name
-        self.set(child_name, value, index)
+        child = self.list[index]
+        # set() addresses a child by its position among the ones having the same name
+        self.set(child.name, value, self.indexes[child.name].index(child))
 
     def __str__(self):
         return str(self.list)
